@@ -172,6 +172,11 @@ pub fn decode_texts(xlsx: &[u8]) -> Result<(Vec<(String, String)>, Vec<String>),
                 Some(t) => cells.push((r, t.clone())),
                 None => return Err(format!("cell {} points at string index {} but the table has {} entries", r, idx, sst.len())),
             }
+        } else if !head.contains(" t=\"") {
+            // numeric cell: coordinate and value as written
+            if let Some(v) = c.split("<v>").nth(1).and_then(|x| x.split("</v>").next()) {
+                cells.push((r, format!("#{}", v)));
+            }
         }
     }
     cells.sort();
@@ -190,6 +195,7 @@ fn lazy_book(k: usize, tag: &str) -> Spreadsheet {
     writer::xlsx::write_writer(&src, &mut cur).unwrap();
     cur.set_position(0);
     let mut b = reader::xlsx::read_reader(cur, false).unwrap();
+    far_cells(&mut b, k, 7, ROUND.with(|r| r.get()));
     for i in 0..k {
         if i % 2 == 1 {
             b.get_sheet_mut(&0).unwrap().get_cell_mut((1u32, (i + 1) as u32)).set_value_string(format!("{}-{}", tag, i));
@@ -200,7 +206,22 @@ fn lazy_book(k: usize, tag: &str) -> Spreadsheet {
     b
 }
 
+/// numeric cells far to the right (three-letter columns): anything a saver computes per column is exercised as well.
+/// Every stress round of a process reaches columns that no earlier round of that process has used.
+fn far_cells(b: &mut Spreadsheet, k: usize, salt: usize, round: u64) {
+    let base = 703 + 160 * (round % 95) as u32;
+    for (j, col) in [base + ((k as u32 * 29 + salt as u32 * 131) % 150), base + 155].iter().enumerate() {
+        b.get_sheet_mut(&0).unwrap().get_cell_mut((*col, 2u32 + j as u32)).set_value_number((10 * k + j) as f64);
+    }
+}
+
+thread_local! { static ROUND: StdCell<u64> = StdCell::new(0); }
+
 fn make_books(k: usize, mode: &str, share: bool, nsavers: usize) -> Vec<Arc<Spreadsheet>> {
+    make_books_inner(k, mode, share, nsavers)
+}
+
+fn make_books_inner(k: usize, mode: &str, share: bool, nsavers: usize) -> Vec<Arc<Spreadsheet>> {
     if mode == "lazy-shared" {
         let a = Arc::new(lazy_book(k, "N"));
         return (0..nsavers).map(|_| a.clone()).collect();
@@ -221,6 +242,7 @@ fn make_books(k: usize, mode: &str, share: bool, nsavers: usize) -> Vec<Arc<Spre
     for i in 0..k {
         a.get_sheet_mut(&0).unwrap().get_cell_mut((1u32, (i + 1) as u32)).set_value_string(format!("A-{}", i));
     }
+    far_cells(&mut a, k, 0, ROUND.with(|r| r.get()));
     if share {
         let a = Arc::new(a);
         return (0..nsavers).map(|_| a.clone()).collect();
@@ -243,14 +265,28 @@ fn make_books(k: usize, mode: &str, share: bool, nsavers: usize) -> Vec<Arc<Spre
                 };
                 b.get_sheet_mut(&0).unwrap().get_cell_mut((1u32, (i + 1) as u32)).set_value_string(val);
             }
+            far_cells(&mut b, k, s, ROUND.with(|r| r.get()));
         }
         v.push(Arc::new(b));
     }
     v
 }
 
+/// A1 notation written independently of the library (the oracle must not share process-wide state with the code under test)
+fn a1_name(col: u32, row: u32) -> String {
+    let mut n = col;
+    let mut s = Vec::new();
+    while n > 0 {
+        let r = (n - 1) % 26;
+        s.push(b'A' + r as u8);
+        n = (n - 1) / 26;
+    }
+    s.reverse();
+    format!("{}{}", String::from_utf8(s).unwrap(), row)
+}
+
 fn expected_cells(b: &Spreadsheet) -> Vec<(String, String)> {
-    let mut v: Vec<(String, String)> = b.get_sheet(&0).unwrap().get_cell_collection().iter().filter(|c| c.get_data_type() == "s").map(|c| (c.get_coordinate().get_coordinate(), c.get_value().to_string())).collect();
+    let mut v: Vec<(String, String)> = b.get_sheet(&0).unwrap().get_cell_collection().iter().filter(|c| c.get_data_type() == "s" || c.get_data_type() == "n").map(|c| (a1_name(*c.get_coordinate().get_col_num(), *c.get_coordinate().get_row_num()), if c.get_data_type() == "n" { format!("#{}", c.get_value()) } else { c.get_value().to_string() })).collect();
     v.sort();
     v
 }
@@ -556,7 +592,32 @@ pub fn run(args: &Args) {
     }
     // (b) free-running stress without the scheduler
     let rounds = if thorough { 3000 } else { 200 };
-    let stress = stress_rounds(rounds, args.seed, &mut o);
+    // (b) free-running stress in fresh processes: state that is initialised on first use is initialised under contention each time
+    let (nproc, per) = if thorough { (48u64, rounds / 48 + 1) } else { (8u64, rounds / 8) };
+    let mut stress = 0u64;
+    let outs: Vec<_> = (0..nproc)
+        .map(|j| std::process::Command::new(&exe).args(["c16stress", "--rounds", &per.to_string(), "--seed", &(args.seed * 1000 + j).to_string()]).stdout(std::process::Stdio::piped()).stderr(std::process::Stdio::null()).spawn())
+        .collect();
+    for (j, ch) in outs.into_iter().enumerate() {
+        match ch.and_then(|c| c.wait_with_output()) {
+            Ok(out) => {
+                let text = String::from_utf8_lossy(&out.stdout).to_string();
+                stress += per;
+                o.observations += per;
+                for line in text.lines().filter(|l| l.starts_with("DIVERGENCE ")) {
+                    let mut it = line.splitn(3, ' ');
+                    it.next();
+                    let sig = it.next().unwrap_or("stress-divergence").to_string();
+                    o.div(sig, format!("fresh process {}: {}", j, it.next().unwrap_or("")));
+                }
+                if !out.status.success() && !text.contains("DIVERGENCE ") {
+                    o.inconclusive = Some(format!("stress process {} ended with {:?} without a report", j, out.status.code()));
+                }
+            }
+            Err(e) => o.inconclusive = Some(format!("cannot run stress process {}: {}", j, e)),
+        }
+    }
+    o.count("stress.fresh-processes", nproc);
     o.count("schedules.dfs", dfs_schedules);
     o.count("schedules.random", schedules - dfs_schedules);
     o.count("stress.rounds", stress);
@@ -571,6 +632,7 @@ pub fn run(args: &Args) {
 }
 
 /// free-running concurrent saves (no scheduler); also used by the ThreadSanitizer and Miri builds
+#[allow(dead_code)]
 pub fn stress_rounds(rounds: u64, seed: u64, o: &mut Outcome) -> u64 {
     stress_rounds_with(rounds, seed, o, 12, false, MODES.len())
 }
@@ -579,9 +641,12 @@ pub fn stress_rounds_with(rounds: u64, seed: u64, o: &mut Outcome, maxk: u32, li
     let mut rng = Rng::new(seed, 1616);
     for j in 0..rounds {
         let k = rng.range(1, maxk) as usize;
-        let mode = *rng.pick(&MODES[..nmodes]);
+        // the first round of a process never builds a lazily opened workbook (that needs a save of its own, which would
+        // initialise process-wide state before the concurrent saves do)
+        let mode = *rng.pick(&MODES[..if j == 0 { nmodes.min(4) } else { nmodes }]);
         let nsavers = rng.range(2, 3) as usize;
         let light = light_only || rng.chance(1, 2);
+        ROUND.with(|r| r.set(j));
         let books = make_books(k, mode, mode == "shared-reference", nsavers);
         let barrier = Arc::new(std::sync::Barrier::new(nsavers));
         let hs: Vec<_> = books
@@ -603,6 +668,7 @@ pub fn stress_rounds_with(rounds: u64, seed: u64, o: &mut Outcome, maxk: u32, li
             .collect();
         let outs: Vec<Result<Vec<u8>, String>> = hs.into_iter().map(|h| h.join().unwrap_or_else(|_| Err("saver thread died".into()))).collect();
         let r = RunOut { grants: vec![], choices: vec![], options: vec![], outs, log: vec![], stuck: None };
+        // the reference saves come after the concurrent ones: they must not initialise any process-wide state beforehand
         let solos = solo_parts(&books, light);
         check_run(o, &books, &r, &solos, &format!("stress#{} k={} {} savers={}", j, k, mode, nsavers));
     }
@@ -613,6 +679,15 @@ pub fn stress_rounds_with(rounds: u64, seed: u64, o: &mut Outcome, maxk: u32, li
 pub fn stress_cmd(args: &Args) {
     let mut o = Outcome::default();
     let n = stress_rounds_with(args.get_u64("rounds", 200), args.seed, &mut o, args.get_u64("maxk", 12) as u32, args.get_u64("light-only", 0) == 1, args.get_u64("modes", MODES.len() as u64) as usize);
+    // probe of process-wide state after the concurrent saves: library naming of columns against our own
+    for col in [1u32, 26, 27, 702, 703, 704, 1000, 5000, 16383, 16384] {
+        let lib = helper::coordinate::string_from_column_index(&col);
+        let own = a1_name(col, 1);
+        if format!("{}1", lib) != own {
+            o.div("process-state-after-concurrent-saves", format!("after the concurrent saves the library names column {} {:?} (expected {:?})", col, lib, own.trim_end_matches('1')));
+            break;
+        }
+    }
     println!("c16stress: {} rounds, {} divergences", n, o.divs.len());
     for d in o.divs.iter().take(5) {
         println!("DIVERGENCE {} {}", d.sig, d.detail);
